@@ -18,6 +18,25 @@ from .core import PathEnd, Conflict, St, Frame, join, join_heap, join_st, BUILTI
 ALL_INTERPS = []     # every interpreter created in this process (D8 reads their events after the property's rules ran)
 
 
+# leading parameters of library functions that are sometimes passed by keyword (name -> parameter names in order)
+PRIM_SIGS = {
+    'zeros': ['shape', 'dtype'], 'ones': ['shape', 'dtype'], 'empty': ['shape', 'dtype'], 'full': ['shape', 'fill_value', 'dtype'],
+    'zeros_like': ['a', 'dtype'], 'ones_like': ['a', 'dtype'], 'empty_like': ['prototype', 'dtype'],
+    'insert': ['arr', 'obj', 'values', 'axis'], 'append': ['arr', 'values', 'axis'], 'concatenate': ['arrays', 'axis'],
+    'fft': ['a', 'n', 'axis'], 'ifft': ['a', 'n', 'axis'], 'rfft': ['a', 'n', 'axis'], 'irfft': ['a', 'n', 'axis'],
+    'array': ['object', 'dtype'], 'asarray': ['a', 'dtype'], 'arange': ['start', 'stop', 'step'],
+    'dot': ['a', 'b'], 'vdot': ['a', 'b'], 'inner': ['a', 'b'], 'outer': ['a', 'b'], 'convolve': ['a', 'v', 'mode'],
+    'correlate': ['a', 'v', 'mode'], 'sum': ['a', 'axis'], 'mean': ['a', 'axis'], 'prod': ['a', 'axis'], 'abs': ['x'], 'real': ['val'],
+    'conj': ['x'], 'conjugate': ['x'], 'roll': ['a', 'shift', 'axis'], 'flipud': ['m'], 'fliplr': ['m'], 'flip': ['m', 'axis'],
+    'reshape': ['a', 'newshape'], 'transpose': ['a', 'axes'], 'linspace': ['start', 'stop', 'num', 'endpoint'],
+    'toeplitz': ['c', 'r'], 'hankel': ['c', 'r'], 'lstsq': ['a', 'b'], 'svd': ['a', 'full_matrices', 'compute_uv'],
+    'where': ['condition', 'x', 'y'], 'take': ['a', 'indices', 'axis'], 'resize': ['a', 'new_shape'], 'pad': ['array', 'pad_width', 'mode'],
+    'maximum': ['x1', 'x2'], 'minimum': ['x1', 'x2'], 'multiply': ['x1', 'x2'], 'add': ['x1', 'x2'], 'subtract': ['x1', 'x2'],
+    'divide': ['x1', 'x2'], 'power': ['x1', 'x2'], 'sqrt': ['x'], 'log': ['x'], 'log10': ['x'], 'log2': ['x'], 'exp': ['x'],
+    'cumsum': ['a', 'axis'], 'sort': ['a', 'axis'], 'argsort': ['a', 'axis'], 'clip': ['a', 'a_min', 'a_max'],
+}
+
+
 class Interp:
     def __init__(self, prog, loop_taint=True, summaries=None, d4=False):
         from .prims import PRIMS
@@ -147,7 +166,14 @@ class Interp:
     def call_function(self, fsym, args, kwargs, st, node=None, closure=None):
         """inline a repo function; returns its (joined) return value; st.heap is updated in place"""
         if fsym.qname in self.summaries:
-            return self.summaries[fsym.qname](self, args, kwargs, node, st)
+            # keyword arguments that name leading positional parameters are handed to the summary positionally
+            pn = [a_.arg for a_ in fsym.node.args.args]
+            if pn and pn[0] == 'self' and fsym.cls is not None:
+                pn = pn[1:] if len(args) == 0 or not isinstance(args[0], Ref) else pn
+            args2, kw2 = list(args), dict(kwargs)
+            while len(args2) < len(pn) and pn[len(args2)] in kw2:
+                args2.append(kw2.pop(pn[len(args2)]))
+            return self.summaries[fsym.qname](self, args2, kw2, node, st)
         fnode = self.body_of(fsym)
         a = fnode.args
         env = {}
@@ -304,6 +330,13 @@ class Interp:
         if f.bound is not None:
             args = [f.bound] + list(args)
         h = self.prims.get(name) or self.prims.get(base)
+        sig = PRIM_SIGS.get(name) or PRIM_SIGS.get(name.split('.')[-1] if name.startswith(('numpy.', 'scipy.')) else name)
+        if sig and kwargs:
+            # numpy / scipy calls written with keywords for their leading parameters: same call, positional
+            nb = 1 if f.bound is not None else 0
+            args, kwargs = list(args), dict(kwargs)
+            while len(args) - nb < len(sig) and sig[len(args) - nb] in kwargs:
+                args.append(kwargs.pop(sig[len(args) - nb]))
         if h is None:
             self.unsupported('unknown primitive %s' % name, node)
             t = frozenset()
@@ -371,7 +404,7 @@ class Interp:
 
     # statements and expressions are in separate mixins to keep files small
     from .interp_expr import (eval, truth, e_Constant, e_Name, e_Attribute, e_Call, e_BinOp, e_UnaryOp, e_Compare,
-                              e_BoolOp, e_IfExp, e_Subscript, e_Tuple, e_List, e_Dict, e_ListComp, e_GeneratorExp,
+                              e_BoolOp, e_IfExp, e_Subscript, e_Tuple, e_List, e_Dict, e_DictComp, e_ListComp, e_GeneratorExp,
                               e_JoinedStr, e_Lambda, e_Slice, e_Set, e_Starred, e_Yield, e_YieldFrom, lookup, index_value, binop,
                               compare_vals, comprehension)
     from .interp_stmt import (exec_block, exec_stmt, bind, store_subscript, iter_elem, s_If, s_For, s_While,
